@@ -49,7 +49,7 @@ var noEffectPrefixes = []string{
 	"github.com/sirupsen/logrus.Warn", "github.com/sirupsen/logrus.Info", "github.com/sirupsen/logrus.Debug", "github.com/sirupsen/logrus.Print",
 	"github.com/sirupsen/logrus.Error", "github.com/sirupsen/logrus.Trace",
 	"log.Print", "fmt.Sprint", "fmt.Errorf", "fmt.Print", "fmt.Fprint", "errors.New", "strings.", "strconv.", "bytes.Equal", "bytes.Compare", "bytes.Index", "bytes.Contains", "bytes.HasPrefix", "bytes.HasSuffix",
-	"math.", "sync/atomic.", "unicode.", "unicode/utf8.", "time.", "os.Getenv", "runtime.", "sort.SearchInts", "slices.Contains", "slices.Index", "(*sync.Mutex).", "(*sync.RWMutex).",
+	"math.", "sync/atomic.", "unicode.", "unicode/utf8.", "time.", "os.Getenv", "runtime.", "sort.SearchInts", "slices.Contains", "slices.Index", "(*sync.Mutex).", "(*sync.RWMutex).", "(*sync.WaitGroup).",
 	"(*sync.WaitGroup).Wait", "path.", "path/filepath.", "regexp.MustCompile", "(*regexp.Regexp).Match", "(*regexp.Regexp).Find", "hash/crc32.", "crypto/md5.",
 	"(*github.com/schollz/progressbar/v3.ProgressBar).", "github.com/schollz/progressbar/v3.", "obiiter.RegisterAPipe", "obiiter.UnregisterPipe", "obiiter.WaitForLastPipe",
 }
